@@ -10,10 +10,10 @@ CHECKS = {
  "C01": ("differential proptest vs independent reference move generator (walks, constructive themes, two-ply); exhaustive enumeration of all 107 648 slider line occupancy patterns through the move generator",
          "Generated legal positions (repository FENs, constructive e.p./pin/check/castling/promotion themes, random placements, weighted walks) are compared pointwise with an independent mailbox implementation of the rules: move set, flags, check verdict, staged vs one-shot generation. Exploration: held on everything generated; no absence claim.",
          "Trusted: the reference model in harness/src/refchess.rs (self-tested against published perft totals at every run); positions are statically legal by the property's definition plus promotion-feasible material and a one-move-reachable e.p. state.", "3/C01"),
- "C02": ("model-based proptest over make/null/undo histories against the reference model, field-by-field snapshots",
+ "C02": ("model-based proptest over make/null/undo histories against the reference model, field-by-field snapshots; thorough tier: coverage-guided libFuzzer campaign on the choice tape, oracle inside the target",
          "Op sequences (make / null move / take back, nested up to 40 deep, then fully unwound) interpreted on the engine Game and on a stack of reference positions; after every op the successor is compared field by field with the rules, the three board views are cross-checked, every take-back must restore the complete snapshot. Plus every legal move of every walk position once.",
          "Trusted: reference model; the e.p. recording convention (target only when an enemy pawn stands beside the pushed pawn) is taken from the code as the property's anchor says.", "3/C02"),
- "C03": ("proptest histories with incremental-vs-scratch key oracle, run-wide identity<->key bijection, directed twins, exhaustive component enumeration",
+ "C03": ("proptest histories with incremental-vs-scratch key oracle, run-wide identity<->key bijection, directed twins, exhaustive component enumeration; thorough tier: coverage-guided libFuzzer campaign on the choice tape, oracle inside the target",
          "After every op of generated histories the carried key must equal zobrist::hash; a run-wide map keeps identity -> key functional and injective; near-miss twins must differ in key; all 838 key components are enumerated through the public API (exhaustive for that part).",
          "Trusted: reference identity (placement, side, rights, recorded e.p. target). A true 64-bit collision among <= 10^7 identities has probability < 1e-5 and would itself contradict the statement.", "3/C03"),
  "C04": ("proptest over search sessions (positions x limits x hash sizes x earlier searches), panic/termination/legality oracle, in checked and optimised profiles",
@@ -34,7 +34,7 @@ CHECKS = {
  "C09": ("stop injection at every poll index via hook H1 (enumerated per search up to 24, sampled above), poll-count equality, follow-up search oracle; real Control::stop from another thread; the position where the stop was observed (hook H3) is searched next on the same tables",
          "For each generated search the number N of stop-flag polls is measured, then the search is repeated with the flag reading true from poll k on, for all k (N <= 24) or 16 chosen k: legal move, polls == k (nothing examined after the stop), reported lines valid, game untouched, follow-up search on the same tables valid.",
          "Trusted: hook H1 (thread-local countdown consulted where the flag is loaded); poll points are those of the real 10,000-node schedule.", "3/C09"),
- "C10": ("proptest over (position, hash move, killer/counter/history table contents, ply) with permutation oracle against engine list and reference set",
+ "C10": ("proptest over (position, hash move, killer/counter/history table contents, ply) with permutation oracle against engine list and reference set; thorough tier: coverage-guided libFuzzer campaign on the choice tape, oracle inside the target",
          "The full picker stream must be a permutation of the legal moves with the hash move first, for generated killer pairs, counter moves (legal here, legal elsewhere, arbitrary), history scores and plies 0..254; the captures-only stream a duplicate-free legal subset containing every capture and queen promotion.",
          "Trusted: reference model; table contents are installed through the engine's own try_push/set/add_bonus_for (reachable contents only).", "3/C10"),
  "C11": ("model-based proptest over game histories with shuffle bias; repetition / fifty-move / dead-material verdicts against the reference's own history list; search-level oracles (a drawing reply bounds the score at 0, every-reply-draws means exactly 0, no history draw stored in the shared table)",
@@ -49,22 +49,22 @@ CHECKS = {
  "C14": ("exhaustive grid + random tuples through the limits accessor (hook H1) with f32 tolerance; go-parser field oracle; wall-clock measurements with 3x solo confirmation; per-node clock gate driven with node counters around 2^16..2^40; wall clock late in long sessions on large tables, with depth limits and fixed move times",
          "hard <= (remaining-overhead)/2 and soft <= hard on a 64,512-tuple grid and 10^6 random tuples; movetime used as given; go arguments land in their fields; on the binary the time from go to bestmove stays below the remaining time (an overrun must repeat in three solo re-runs to count).",
          "Trusted: hook accessor returns the fields the search uses; tolerance 2^-20 relative + 1 us for f32 arithmetic. The wall-clock half is statistical.", "3/C14"),
- "C15": ("proptest histories; incremental accumulators vs IncrementalEvalFields::init and eval path independence after every op",
+ "C15": ("proptest histories; incremental accumulators vs IncrementalEvalFields::init and eval path independence after every op; thorough tier: coverage-guided libFuzzer campaign on the choice tape, oracle inside the target",
          "After every make / null / take-back the phase counter and piece-square accumulator must equal recomputation from the board, and eval(game) must equal eval of the rebuilt position.",
          "Trusted: the engine's own from-scratch computation as the oracle for the incremental one (differential within the code).", "3/C15"),
- "C16": ("metamorphic proptest (mirror twins), blend-interval oracle via forced phase, exhaustive-ish triples for PhasedEval::for_phase; constructed pairs of legal positions whose keys agree on 32-64 chosen bits (GF(2) elimination over the key words) evaluated back to back; games taken back from 1100+ plies",
+ "C16": ("metamorphic proptest (mirror twins), blend-interval oracle via forced phase, exhaustive-ish triples for PhasedEval::for_phase; constructed pairs of legal positions whose keys agree on 32-64 chosen bits (GF(2) elimination over the key words) evaluated back to back; games taken back from 1100+ plies; thorough tier: coverage-guided libFuzzer campaign on the choice tape, oracle inside the target",
          "eval(P) == eval(mirror P), not a mate score, within [mg, eg] obtained by forcing the phase field; blend triples over mg, eg in +-20000 and phase 0..88.",
          "Trusted: reference mirror; pub phase field to obtain pure middlegame/endgame values.", "3/C16"),
  "C17": ("generated legal games sent as 'position ... moves ...' to the shipped binary; FEN dump, reply set and bestmove against the reference model; parser twin; cases preceded by a position command whose start position has the same 64-bit key (constructed collision)",
          "Games of up to 250 plies with castling, e.p. and all promotion pieces; after the position command the engine's FEN dump, its perftdiv 1 move set and its depth-1 bestmove must match the reference final position.",
          "Trusted: reference model incl. the recorded-e.p. convention for the FEN dump.", "3/C17"),
- "C18": ("proptest over every legal move of tactical positions; uniqueness, reference SAN body/suffix and read-back oracle",
+ "C18": ("proptest over every legal move of tactical positions; uniqueness, reference SAN body/suffix and read-back oracle; thorough tier: coverage-guided libFuzzer campaign on the choice tape, oracle inside the target",
          "format_move must be unique among the legal moves, equal the reference SAN body, carry a check/mate suffix exactly when the move checks, and parse_move must return the same move.",
          "Trusted: reference SAN writer (FIDE C.10 minimal disambiguation).", "3/C18"),
  "C19": ("model-based proptest over insert/probe/new-search/reset/resize with colliding keys; admissible-set model with true search counter; known-finding classification by an aliasing model; 128-520 MB tables with keys in edge slots; engine reset path after 1-513 real searches",
          "The table is driven next to a model that keeps, per slot, the set of entries the statement admits; probes narrow the set; statistics and emptiness after reset/resize are exact. Discrepancies explained exactly by 8-bit age aliasing are the listed known finding; anything else is a violation.",
          "Trusted: calculate_number_of_entries for the slot layout (size 0: weak oracle).", "3/C19"),
- "C20": ("metamorphic (mirror) + rule oracles + independent branching swap-list minimax over every legal capture of tactical positions; constructed key-collision pairs containing the same capture with different verdicts; piece values probed from the engine",
+ "C20": ("metamorphic (mirror) + rule oracles + independent branching swap-list minimax over every legal capture of tactical positions; constructed key-collision pairs containing the same capture with different verdicts; piece values probed from the engine; thorough tier: coverage-guided libFuzzer campaign on the choice tape, oracle inside the target",
          "see(m, 0) must be mirror-invariant, true on undefended targets and when victim >= attacker, and equal an independent swap-list minimax whenever all tie-break branches agree.",
          "Trusted: the harness swap-list (values 100/300/300/500/900, pins ignored, king captures only when undefended).", "3/C20"),
 }
@@ -81,7 +81,7 @@ m = {
  },
  "engines": [
   {"name": "check", "path": "harness/src/bin/check.rs", "serves_properties": sorted(CHECKS), "kind_free_text": "proptest TestRunner (fixed seeds from VERIF_SEED, 16 workers) + exhaustive enumerators + UCI process driver; engine sources compiled into the harness crate"},
-  {"name": "fuzz", "path": "fuzz/", "serves_properties": ["C01", "C06"], "kind_free_text": "cargo-fuzz / libFuzzer targets with the semantic oracle inside (thorough tier only)"},
+  {"name": "fuzz", "path": "fuzz/", "serves_properties": ["C01", "C02", "C03", "C06", "C10", "C15", "C16", "C18", "C20"], "kind_free_text": "cargo-fuzz / libFuzzer targets with the semantic oracle inside (thorough tier only): fen_reader (C06), movegen (C01), histories (C02 C03 C15), picker (C10), positions (C16 C18 C20); the fuzz bytes are a choice tape for the same deterministic builders the proptest parts use"},
  ],
  "checks": [],
  "not_applicable": [],
